@@ -28,11 +28,12 @@ from harness.core.trees import Universe
 PID = "C08"
 RULE = ("a case is one history over {construct(i, dash/gen/nest, add_config_path_arg, config_path=files), add_arguments(i, class, dest), "
         "parse_args / parse_known_args(i, argv), print_help(i), format_help(i)} on a pool of <= 3 parsers; parser "
-        "definitions come from 6 small classes (int/str/bool/List/Optional fields, a heterogeneous Tuple field, a "
+        "definitions come from 7 small classes (int/str/bool/List/Optional fields, heterogeneous Tuple fields incl. "
+        "Tuple[str,bool] / Tuple[int,bool,str] whose bool item can be rejected mid-tuple, a "
         "subgroups field with two alternatives, a field with a custom type=) x 6 spelling configurations; the same "
         "dataclass object may be registered on several parsers; argv per parser: valid in its own spelling, "
         "valid in the other spelling, bad value, unknown option, -h, config files (present / missing). Exhaustive slice: "
-        "every history over a 23-letter alphabet on three fixed parsers up to length 3 + 1/40 of length 4 (quick) / up to length 4 + 1/60 of length 5 (thorough); random "
+        "every history over a 29-letter alphabet on three fixed parsers length 2 + 1/2 of length 3 + 1/160 of length 4 (quick) / up to length 3 + 1/4 of length 4 + 1/150 of length 5 (thorough); random "
         "histories up to length 30. Non-trivial = >= 2 parse calls on one parser, or >= 2 parsers alive at a parse; "
         "distinct by canonical JSON.")
 ASSUMPTIONS = ["a fresh `/venv/bin/python -I` process that imports the library, builds one parser and parses once is the "
@@ -95,7 +96,11 @@ CLASSES = {
                                   _f("opt_n", {"k": "opt", "inner": INT}, {"t": "none"})], "sub": None},
 }
 CLASSES["K"] = {"name": "K", "fields": [dict(_f("tag", STR, _s("0")), ctype="int"), _f("n_k", INT, _i(1))], "sub": None}
-DEST = {"A": "a", "B": "b", "T": "t", "S": "s", "L": "l", "K": "k"}
+# heterogeneous tuples with a bool item: `str2bool` rejects a value with ArgumentTypeError (not ValueError)
+CLASSES["F"] = {"name": "F", "fields": [
+    _f("feature", {"k": "tuple", "items": [STR, BOOL]}, {"t": "tuple", "v": [_s("a"), {"t": "bool", "v": False}]}),
+    _f("trio", {"k": "tuple", "items": [INT, BOOL, STR]}, {"t": "tuple", "v": [_i(1), {"t": "bool", "v": True}, _s("z")]})], "sub": None}
+DEST = {"A": "a", "B": "b", "T": "t", "S": "s", "L": "l", "K": "k", "F": "f"}
 CFGS = [
     {"dash": "UNDERSCORE", "gen": "FLAT", "nest": "DEFAULT"},
     {"dash": "DASH", "gen": "FLAT", "nest": "DEFAULT"},
@@ -148,6 +153,12 @@ def segments(cfg, cname, dest):
         return {"ok1": [o("mod"), "y"], "ok2": [o("mod"), "x", spelled(cfg, dest + ".mod", "xv"), "3"],
                 "ok3": [o("mod"), "y", spelled(cfg, dest + ".mod", "yv"), "7", o("k_v"), "4"],
                 "ok4": [spelled(cfg, dest + ".mod", "w_w"), "9"], "bad": [o("mod"), "z"]}
+    if cname == "F":
+        return {"ok1": [o("feature"), "yes", "true"], "ok2": [o("trio"), "3", "no", "q", o("feature"), "w", "0"],
+                "twice": [o("feature"), "yes", "true", o("feature"), "no", "false"],
+                "twice3": [o("trio"), "3", "no", "q", o("trio"), "4", "yes", "r"],
+                "bad_last": [o("feature"), "yes", "maybe"], "bad_mid": [o("trio"), "3", "maybe", "q"],
+                "bad_first": [o("trio"), "x", "yes", "q"], "bad_then_ok": [o("trio"), "3", "maybe", "q", o("feature"), "yes", "true"]}
     if cname == "K":
         return {"ok1": [o("tag"), "12"], "ok2": [o("n_k"), "4", o("tag") + "=7"], "bad": [o("tag"), "abc"]}
     if cname == "L":
@@ -320,18 +331,26 @@ def globals_now():
 
 
 def peek(parser):
-    """read-only look at the hidden state of the REAL parser (only used to attribute failures to known findings)"""
+    """read-only look at the hidden state of the REAL parser: used to attribute failures to known findings, and
+    (`tuple_dirty`) to check the one thing the model assumes about the parse_tuple closures instead of tracking it —
+    between two calls every closure stands at the start of a tuple (calls_count is a multiple of the arity)"""
     dirty = False
     for a in parser._actions:
         fn = getattr(a, "type", None)
         clo = getattr(fn, "__closure__", None)
         if clo:
+            cells = {}
             for name, cell in zip(fn.__code__.co_freevars, clo):
-                if name == "calls_count":
-                    try:
-                        dirty = dirty or cell.cell_contents > 0
-                    except ValueError:
-                        pass
+                try:
+                    cells[name] = cell.cell_contents
+                except ValueError:
+                    pass
+            if isinstance(cells.get("calls_count"), int):
+                types = cells.get("tuple_item_types")
+                if isinstance(types, tuple) and Ellipsis in types:
+                    continue  # Tuple[T, ...]: one item type, the counter's value never matters
+                arity = len(types) if isinstance(types, tuple) and types else 0
+                dirty = dirty or (cells["calls_count"] % arity != 0 if arity else cells["calls_count"] != 0)
     frozen = {w.dest: w.dataclass.__name__ for w in parser._wrappers if getattr(w, "parent", None) is not None}
     return {"pre": bool(parser._preprocessing_done), "cfg_reg": any(a.dest == "config_path" for a in parser._actions),
             "tuple_dirty": dirty, "frozen_sub": frozen}
@@ -524,11 +543,15 @@ def hist(ops, note=None):
 
 
 def alphabet():
-    """23 letters over three slots (a letter may be a short macro: constructor + its add_arguments)"""
+    """29 letters over three slots (a letter may be a short macro: constructor + its add_arguments)"""
     c0, c1, c2 = CFGS[1], CFGS[3], CFGS[0]
     s0, s1, s2 = segments(c0, "A", "a"), segments(c1, "T", "t"), segments(c2, "S", "s")
     k = segments(c2, "K", "k")
+    f = segments(c1, "F", "f")
     return [
+        # slot 1 over F: heterogeneous tuples with a bool item (rejected mid-tuple / at the last item, then valid)
+        ("mk1f", [mk(1, c1), add(1, "F")]), ("p1fok", [parse(1, f["ok1"])]), ("p1fok2", [parse(1, f["ok2"])]),
+        ("p1fbadlast", [parse(1, f["bad_last"])]), ("p1fbadmid", [parse(1, f["bad_mid"])]), ("p1ftwice", [parse(1, f["twice"])]),
         ("mk0", [mk(0, c0), add(0, "A")]), ("mk1", [mk(1, c1), add(1, "T")]), ("mk2", [mk(2, c2), add(2, "S")]),
         # slot 1 as a parser with constructor config file in the root-less layout (WITHOUT_ROOT, one dataclass)
         ("mk1c", [mk(1, CFGS[5], cfg_files=[D + "/r0.json"]), add(1, "A")]),
@@ -544,7 +567,7 @@ def alphabet():
     ]
 
 
-def exhaustive(maxlen):
+def exhaustive_words(maxlen):
     """every word over the alphabet, up to `maxlen` letters, in which each call addresses a constructed parser, the
     late add happens at most once and the last call is a parse (by extension of valid prefixes, length by length)"""
     letters = alphabet()
@@ -562,13 +585,22 @@ def exhaustive(maxlen):
         level = nxt
         for word, _alive, _added in level:
             if word[-1][1][0]["op"] == "parse":
-                yield hist([op for _, ops in word for op in ops], note="exh:" + "+".join(w[0] for w in word))
+                yield word
+
+
+def word_case(word):
+    return hist([op for _, ops in word for op in ops], note="exh:" + "+".join(w[0] for w in word))
+
+
+def exhaustive(maxlen):
+    for word in exhaustive_words(maxlen):
+        yield word_case(word)
 
 
 def make_definition(rng):
     """a parser definition + a small fixed menu of argv for it (keeps the number of distinct fresh-interpreter runs small)"""
     cfg = rng.choice(CFGS)
-    names = rng.sample(["A", "B", "T", "S", "L", "K"], rng.choice([1, 1, 2, 2, 3]))
+    names = rng.sample(["A", "B", "T", "S", "L", "K", "F"], rng.choice([1, 1, 2, 2, 3]))
     r = rng.random()
     cp = r < 0.25
     cf = []
@@ -643,16 +675,19 @@ DEST_INV = {v: k for k, v in DEST.items()}
 
 
 def gen_list(rng, tier):
-    words = list(exhaustive(4 if tier == "quick" else 5))
-    nlet = lambda c: c["case"]["note"].count("+") + 1  # noqa: E731
-    if tier == "quick":
-        # every word up to length 3, and every 40th word of length 4 (which ones depends on the seed)
-        full, stride = 3, 40
-    else:
-        # every word up to length 4, and every 60th word of length 5
-        full, stride = 4, 60
-    long_ = [c for c in words if nlet(c) > full]
-    cases = [c for c in words if nlet(c) <= full] + long_[rng.randrange(stride)::stride]
+    # quick: every word of length 2, every 2nd of length 3, every 160th of length 4; thorough: up to length 3 + every 4th of length 4 + every
+    # 150th of length 5 (which ones depends on the seed)
+    strides = {3: 2, 4: 160} if tier == "quick" else {4: 4, 5: 150}
+    offs = {n: rng.randrange(st) for n, st in sorted(strides.items())}
+    seen = {n: 0 for n in strides}
+    cases = []
+    for word in exhaustive_words(max(strides)):
+        n = len(word)
+        if n in strides:
+            seen[n] += 1
+            if (seen[n] - 1) % strides[n] != offs[n]:
+                continue
+        cases.append(word_case(word))
     defs = [make_definition(rng) for _ in range(12 if tier == "quick" else 70)]
     n_rand = 120 if tier == "quick" else 2000
     for k in range(n_rand):
@@ -742,13 +777,16 @@ def _proj_out(o):
 def project(case, obs):
     if case["op"] == "hist.fresh":
         return _proj_out(obs["fresh1"])
-    return {"outs": [_proj_out(o) for o in obs["outs"]], "g": [t["G_after"] for t in obs["trace"]]}
+    return {"outs": [_proj_out(o) for o in obs["outs"]], "g": [t["G_after"] for t in obs["trace"]],
+            "closures_at_tuple_start": [not t["after"]["tuple_dirty"] for t in obs["trace"]]}
 
 
 def project_model(case, mo):
     if case["op"] == "hist.fresh":
         return _proj_out(mo)
-    return {"outs": [_proj_out(o) for o in mo.get("outs", [])], "g": mo.get("g")}
+    # Model/History.lean starts every call with all parse_tuple counters at 0: that is this (constant) observable
+    return {"outs": [_proj_out(o) for o in mo.get("outs", [])], "g": mo.get("g"),
+            "closures_at_tuple_start": [True] * len(mo.get("outs", []))}
 
 
 def model_unmodelled(mo):
